@@ -102,6 +102,38 @@ abbrev configCurrent (numThreads : Nat) (mode : Mode) (forces : List (ForceElt M
 abbrev configOld (numThreads : Nat) (mode : Mode) (forces : List (ForceElt M)) : Config M :=
   configV true numThreads mode forces
 
+/-! ## the subsystem level: which forces exist, which are enabled, which task class is used -/
+
+/-- a force element of the subsystem together with its current enabled flag in the State
+(`forceEnabled[i]`; initially `!isDisabledByDefault()`, changed by `setForceIsDisabled`) -/
+structure MForce (M : Type) where
+  enabled : Bool
+  elt : ForceElt M
+
+/-- `realizeSubsystemTopologyImpl`: `hasParallelForces` looks at EVERY force of the subsystem, enabled or not
+("they could be enabled in the future"); it selects `CalcForcesParallelTask` vs `CalcForcesNonParallelTask` (+ a
+one-thread executor) -/
+def subsystemHasParallel (all : List (MForce M)) : Bool := all.any (fun f => f.elt.parallel)
+
+/-- `realizeSubsystemInstanceImpl`: the enabled forces in index order (split into parallel / non-parallel by `configV`) -/
+def enabledElts (all : List (MForce M)) : List (ForceElt M) := (all.filter (·.enabled)).map (·.elt)
+
+/-- `execute(k)` of the task class in use: `CalcForcesNonParallelTask::execute` does nothing for `k ≠ 0` -/
+def taskLocalC (parallelTask : Bool) (mode : Mode) (forces : List (ForceElt M)) (k : Nat) : List M :=
+  if k = 0 then taskLocalV false mode forces 0
+  else if parallelTask then taskLocalV false mode forces k else []
+
+/-- one `realizeSubsystemDynamicsImpl` of a subsystem with the given forces and enabled mask.
+(For the non-parallel task the code accumulates straight into the State arrays in the caching modes; with its
+one-thread executor that is sequential, and it is modelled as thread-local accumulation — same total.) -/
+def configSubsystem (numThreads : Nat) (mode : Mode) (all : List (MForce M)) : Config M :=
+  let hp := subsystemHasParallel all
+  let forces := enabledElts all
+  let nt := effectiveThreads numThreads hp
+  let T := 1 + (forces.filter (fun f => f.parallel)).length
+  { n := workers nt, direct := [],
+    contribs := fun w => (tasksOf nt T w).flatMap (taskLocalC hp mode forces) }
+
 /-! ## transition system -/
 
 inductive Pc
